@@ -529,7 +529,7 @@ NONHANDLE_PARAMS = [["user", None, TY("User")], ["count", None, TY("u32")], ["ti
 def fn_shape(rng, kind=None):
     """shape of the enclosing function: where the handle comes from, parameters, qualifiers.
     Returns fn fields plus the generator's scope (typed variables) and usable receivers."""
-    kind = kind or rng.choice(["std", "std", "std", "none-static", "none-local", "nonhandle-static", "nonhandle-local", "only-handle"])
+    kind = kind or rng.choice(["std", "std", "std", "none-static", "none-local", "nonhandle-static", "nonhandle-local", "only-handle", "typed-handle"])
     sh = {"cmd": rng.random() < 0.4, "attrs": list(rng.choice(ATTRS)), "vis": rng.choice(VIS), "quals": rng.choice(QUALS),
           "ret": rng.choice([None, None, "Result<(), String>", "tauri::Result<()>"]), "body": [], "receivers": None}
     if sh["quals"] and sh["quals"].startswith("pub"):
@@ -538,6 +538,15 @@ def fn_shape(rng, kind=None):
         sh["params"], sh["scope"] = [list(p) for p in STD_PARAMS], list(SIMPLE_VARS)
         if rng.random() < 0.2:
             sh["params"].append([None, "(a, b)", ["tuple", [TY("i32"), TY("i32")]]])
+    elif kind == "typed-handle":       # the handle is a variable with a declared / inferred type of any kind (handle_decls)
+        h = rng.choice(["app", "window", "webview"])
+        decls = handle_decls(h)
+        d = decls[rng.choice(sorted(decls))]
+        sh["params"] = [list(q) for q in d["params"]] + [list(p) for p in NONHANDLE_PARAMS]
+        sh["scope"] = ["user", "count", "title"]
+        sh["body"] = list(d["pre"])
+        sh["generics"], sh["where"] = d.get("generics", ""), d.get("where")
+        sh["receivers"] = [V(h), V(h), M(V(h), "clone")]
     elif kind == "only-handle":
         sh["params"], sh["scope"] = [["app", "mut app" if rng.random() < 0.3 else None, rng.choice([APP_T, ["ref", APP_T]])]], []
         sh["receivers"] = [V("app"), M(V("app"), "handle"), M(V("app"), "clone")]
